@@ -349,3 +349,59 @@ def check_variable_identity(repo: Repo, rep: Report) -> None:
                             f"backend protocol differs: returned {r!r}, log {log!r}, stores on self {selfo.stores!r}", fn.lineno)
         except (Undecided, Raised) as ex:
             rep.undecide("VID-3", f"{meth}: {ex}")
+
+
+MUTATORS = ("append", "extend", "insert", "pop", "remove", "clear", "sort", "reverse", "__setitem__", "__delitem__", "__iadd__")
+INPLACE_DUNDERS = ("__iadd__", "__isub__", "__imul__", "__iand__", "__ior__", "__ixor__", "__ilshift__", "__irshift__", "__ifloordiv__", "__imod__")
+
+
+def check_tree_immutability(repo: Repo, rep: Report) -> None:
+    """VID-4: an expression tree that has been handed out (posted as a constraint, bound to a second name) never changes.
+    `op` / `operands` are stored only by Expr.__init__; nothing anywhere in cspuz/ mutates an `.operands` list in place;
+    an in-place operator method of an expression class may not return `self` (it would turn `s += x` into a mutation of
+    every constraint that already contains s)."""
+    rep.rule("VID-4", "expression trees are immutable: op/operands stored only in Expr.__init__, no in-place mutation of an operands list, "
+                      "no in-place operator dunder that returns self")
+    n = 0
+    for m in repo.iter("cspuz/"):
+        for node in ast.walk(m.tree):
+            # stores  <x>.operands = ... / <x>.op = ... / <x>.operands[i] = ... / del / augmented
+            if isinstance(node, (ast.Assign, ast.AugAssign, ast.AnnAssign, ast.Delete)):
+                tgts = node.targets if isinstance(node, (ast.Assign, ast.Delete)) else [node.target]
+                for t in tgts:
+                    subs = [t, t.value] if isinstance(t, ast.Subscript) else [t]
+                    for sub in subs:
+                        if isinstance(sub, ast.Attribute) and sub.attr in ("operands", "op"):
+                            n += 1
+                            q = qualname(node)
+                            init_store = (q == "Expr.__init__" and m.rel == "cspuz/expr.py" and sub is t and isinstance(node, (ast.Assign, ast.AnnAssign))
+                                          and isinstance(sub.value, ast.Name) and sub.value.id == "self")
+                            if init_store or (isinstance(node, ast.AnnAssign) and node.value is None):
+                                rep.ok("VID-4", f"{m.rel}::{q} {short(node, 60)}: set once at construction", nontrivial=False)
+                            else:
+                                rep.finding("VID-4", m.rel, q, short(node),
+                                            f"`{short(node)}` changes the {sub.attr} of an existing expression: every constraint or sum that already "
+                                            "contains this object changes its meaning", node.lineno)
+            elif isinstance(node, ast.Call) and isinstance(node.func, ast.Attribute) and node.func.attr in MUTATORS:
+                b = node.func.value
+                if isinstance(b, ast.Attribute) and b.attr == "operands":
+                    n += 1
+                    rep.finding("VID-4", m.rel, qualname(node), short(node),
+                                f"`{short(node)}` mutates the operand list of an existing expression in place: an expression that was already "
+                                "posted or shared changes its meaning", node.lineno)
+        # in-place dunders on expression classes
+        if m.rel == "cspuz/expr.py":
+            for q, fn in m.funcs.items():
+                parts = q.split(".")
+                if len(parts) == 2 and parts[1] in INPLACE_DUNDERS:
+                    n += 1
+                    rets_self = [r for r in ast.walk(fn) if isinstance(r, ast.Return) and isinstance(r.value, ast.Name) and r.value.id == "self"]
+                    if rets_self:
+                        rep.finding("VID-4", m.rel, q, f"{q} returns self",
+                                    f"{q} returns the receiver itself: `s {parts[1][3:-2]}= x` then rebinds s to the same (shared) object", rets_self[0].lineno)
+                    else:
+                        rep.ok("VID-4", f"{q} builds a new expression", nontrivial=False)
+    if n < 2:
+        raise AnalysisError("VID-4: the construction stores of Expr.__init__ were not found")
+    if not any(f.rule == "VID-4" for f in rep.findings):
+        rep.ok("VID-4", f"{n} sites touching op/operands: only Expr.__init__ stores them; no in-place mutation anywhere in cspuz/")
